@@ -56,7 +56,9 @@ def build_case(shard, vi, seed, ctor="Sigma", prep="fresh"):
         M = M * 0.5
     b = objs.vecn_batch(Dy, Rc, vi, seed, tag + ("b",))
     Sy = objs.spd_batch(Dy, Rc, vi, seed, tag + ("Sy",), diag=diag)
-    Sx = objs.spd_batch(Dx, Rx, vi + 1, seed, tag + ("Sx",))
+    # the prior is a diagonal-class density for the second catalogue entry (the result must not inherit its shortcuts)
+    px_kind = "GaussianDiagPDF" if vi == 1 else "GaussianPDF"
+    Sx = objs.spd_batch(Dx, Rx, vi + 1, seed, tag + ("Sx",), diag=(px_kind == "GaussianDiagPDF"))
     mx = objs.vec_batch(Dx, Rx, vi, seed, tag + ("mx",))
     if prep == "sliced" and kind != "nncontrol":
         # the operands are reached from elsewhere: a larger batch sliced with NEGATIVE indices
@@ -90,7 +92,7 @@ def build_case(shard, vi, seed, ctor="Sigma", prep="fresh"):
         p_x.integrate("xx'")  # and the prior has been queried before
         return cond, kw, p_x, (Me, be, Sy, mx, Sx)
     cond, kw, (Me, be, Sye) = objs.mk_cond(kind, M, b, Sy, ctor=ctor)
-    p_x = objs.mk_pdf("GaussianPDF", Sx, mx)
+    p_x = objs.mk_pdf(px_kind, Sx, mx)
     return cond, kw, p_x, (Me, be, Sye, mx, Sx)
 
 
@@ -178,6 +180,15 @@ def check_joint(ctx, cond, kw, p_x, M, b, Sy, mx, Sx, x, y, Rc, Rx):
     ctx.close("joint.mu", np.asarray(joint.mu), mu_ref)
     ctx.close("joint.Sigma", np.asarray(joint.Sigma), Sig_ref)
     coherent_pdf(ctx, "joint", joint)
+    # the joint is usable like any density: a marginal over a mixed (x, y) pair of coordinates and the x-marginal
+    with ctx.guard("joint.then_marginal"):
+        dims = [Dx - 1, Dx]
+        mm = joint.get_marginal(jnp.array(dims))
+        pts2 = al.points(2, 2, salt=5)
+        refm = np.array([rm.gauss_logpdf(pts2, mu_ref[r][dims], Sig_ref[r][np.ix_(dims, dims)]) for r in range(R)])
+        ctx.close("joint.then_marginal", np.asarray(mm.evaluate_ln(J(pts2))), refm)
+        mx_ = joint.get_marginal(jnp.arange(Dx))
+        ctx.close("joint.then_x_marginal.Sigma", np.asarray(mx_.Sigma), Sig_ref[:, :Dx, :Dx])
     # both calling conventions of evaluation agree with the chain rule at the library level too
     with ctx.guard("joint.chain_rule_lib"):
         cx = cond.condition_on_x(J(x), **kw) if "u" not in kw else cond.condition_on_x_u(J(x), kw["u"])
